@@ -1,4 +1,5 @@
 import Abyss.Open
+import Abyss.Lemmas.OpenL
 import Abyss.Props.C02
 /-!
 # C13 — opening files as the wrong key type or with foreign signatures is refused
@@ -13,7 +14,11 @@ namespace Abyss
 /-- the type signatures are pairwise distinct, except `u64` / `vu64` -/
 theorem C13_types_distinct (a b : KeyType) (hab : a ≠ b)
     (hcol : ¬ ((a = .u64 ∧ b = .vu64) ∨ (a = .vu64 ∧ b = .u64))) : a.sig ≠ b.sig := by
-  sorry
+  cases a <;> cases b <;> first
+    | exact absurd rfl hab
+    | exact absurd (Or.inl ⟨rfl, rfl⟩) hcol
+    | exact absurd (Or.inr ⟨rfl, rfl⟩) hcol
+    | decide
 
 /-- the known finding: these two key types are not told apart by the files -/
 theorem C13_collision : KeyType.u64.sig = KeyType.vu64.sig := by decide
@@ -21,19 +26,44 @@ theorem C13_collision : KeyType.u64.sig = KeyType.vu64.sig := by decide
 /-- full statement refuted for that pair: files of a `u64` map are accepted as a `vu64` map -/
 theorem C13_full_statement_refuted :
     ¬ (∀ (a b : KeyType), a ≠ b → ∀ s : Store, openAccepts b (render a s) = false) := by
-  sorry
+  intro h
+  have h1 := h .u64 .vu64 (by decide) (Store.init 1)
+  have h2 : render .u64 (Store.init 1) = render .vu64 (Store.init 1) := rfl
+  have h3 : openAccepts .vu64 (render .vu64 (Store.init 1)) = true := by
+    unfold openAccepts render renderKeyFile renderValFile
+    rw [show Gen.keySig1 = keyCfg.sig1 from rfl, show Gen.valSig1 = valCfg.sig1 from rfl,
+      recHeaderAccepts_render _ _ _ _ rfl (by decide), recHeaderAccepts_render _ _ _ _ rfl (by decide),
+      htxHeaderAccepts_render _ _ (by decide) (by decide)]
+    rfl
+  rw [h2, h3] at h1
+  cases h1
 
 /-- files created for key type `a` are refused when opened as any other key type `b`
 (outside the colliding pair) -/
 theorem C13_wrong_type_partial (a b : KeyType) (hab : a ≠ b)
     (hcol : ¬ ((a = .u64 ∧ b = .vu64) ∨ (a = .vu64 ∧ b = .u64))) (s : Store) :
     openAccepts b (render a s) = false := by
-  sorry
+  have hs : a.sig ≠ b.sig := C13_types_distinct a b hab hcol
+  have hk : recHeaderAccepts Gen.keySig1 b (render a s).key = false := by
+    cases h : recHeaderAccepts Gen.keySig1 b (render a s).key with
+    | false => rfl
+    | true =>
+      exfalso
+      simp only [recHeaderAccepts, Bool.and_eq_true, beq_iff_eq] at h
+      have h2 := h.1.2
+      simp only [render, renderKeyFile] at h2
+      rw [renderRecHeader_drop_take _ _ _ _ rfl a.sig_length] at h2
+      exact hs h2
+  simp [openAccepts, hk]
 
 /-- files are accepted as their own type (as long as the table has at least one bucket) -/
 theorem C13_own_type (a : KeyType) (s : Store) (hn : 0 < s.n) (hn2 : s.n < 2^64) :
     openAccepts a (render a s) = true := by
-  sorry
+  unfold openAccepts render renderKeyFile renderValFile
+  rw [show Gen.keySig1 = keyCfg.sig1 from rfl, show Gen.valSig1 = valCfg.sig1 from rfl,
+    recHeaderAccepts_render _ _ _ _ rfl (by decide), recHeaderAccepts_render _ _ _ _ rfl (by decide),
+    htxHeaderAccepts_render _ _ hn hn2]
+  rfl
 
 /-- any change of any of the 16 signature bytes of any of the three files is refused -/
 theorem C13_mutation (a : KeyType) (s : Store) (f : WhichFile) (pos b : Nat) (hpos : pos < 16)
@@ -42,6 +72,21 @@ theorem C13_mutation (a : KeyType) (s : Store) (f : WhichFile) (pos b : Nat) (hp
                 | .key => (render a s).key
                 | .val => (render a s).val).getD pos 0) :
     openAccepts a ((render a s).mutate f pos b) = false := by
-  sorry
+  cases f with
+  | htx =>
+    have : htxHeaderAccepts a ((render a s).htx.set pos b) = false :=
+      htxHeaderAccepts_set a _ (renderHtxFile_take _ _) (renderHtxFile_drop_take _ _ a.sig_length)
+        pos b hpos hb
+    simp [openAccepts, Image.mutate, mutateByte, this]
+  | key =>
+    have : recHeaderAccepts Gen.keySig1 a ((render a s).key.set pos b) = false :=
+      recHeaderAccepts_set _ a _ (renderRecHeader_take keyCfg _ _ _ rfl)
+        (renderRecHeader_drop_take keyCfg _ _ _ rfl a.sig_length) rfl pos b hpos hb
+    simp [openAccepts, Image.mutate, mutateByte, this]
+  | val =>
+    have : recHeaderAccepts Gen.valSig1 a ((render a s).val.set pos b) = false :=
+      recHeaderAccepts_set _ a _ (renderRecHeader_take valCfg _ _ _ rfl)
+        (renderRecHeader_drop_take valCfg _ _ _ rfl a.sig_length) rfl pos b hpos hb
+    simp [openAccepts, Image.mutate, mutateByte, this]
 
 end Abyss
